@@ -141,6 +141,8 @@ func main() {
 		cmdGen(os.Args[2:])
 	case "run":
 		cmdRun(os.Args[2:])
+	case "params":
+		cmdParams(os.Args[2:])
 	case "ops":
 		names := []string{}
 		for k := range ops {
